@@ -120,6 +120,7 @@ func (v *StructSchema) process(ctx *p.SchemaCtx) {
 		subCtx.ValPtr = destPtr
 		subCtx.Path.Push(&fieldKey)
 		subCtx.DType = processor.getType()
+		subCtx.CanCatch = false
 		subCtx.Exit = false
 		processor.process(subCtx)
 		subCtx.Path.Pop()
@@ -201,6 +202,8 @@ func (v *StructSchema) validate(ctx *p.SchemaCtx) {
 		subCtx.ValPtr = destPtr
 		subCtx.Path.Push(&fieldKey)
 		subCtx.DType = schema.getType()
+		subCtx.CanCatch = false
+		subCtx.Exit = false
 		schema.validate(subCtx)
 		subCtx.Path.Pop()
 	}
